@@ -41,6 +41,12 @@ def mvnSpec (x : Tensor) (dim : Nat) (mean std : List Rat) (eps : Rat) : Tensor 
       let i := (unravel x.shape k).getD dim 0
       (x.data.getD k 0 - mean.getD i 0) / max (std.getD i 0) eps) }
 
+/-- The statistic `mean_var_norm` uses for coefficient `i`: the supplied one, else the input's own. -/
+def statUsed (given? : Option (List Rat)) (own : Rat) (i : Nat) : Rat :=
+  match given? with
+  | some v => v.getD i 0
+  | none => own
+
 /-! ## What the module holds after any sequence of `accumulate` / `store` calls -/
 
 /-- All frames of coefficient `i` in a list of chunks (each chunk = per-coefficient frame lists). -/
